@@ -13,7 +13,7 @@ Require Import Grits.Base Grits.ModeDefs Grits.Modes Grits.STypes Grits.Forms Gr
                Grits.spec.ScanSpec Grits.spec.Grammar
                Grits.proofs.ScanProofs Grits.proofs.ScanCover Grits.proofs.LRCheck Grits.proofs.LRProof
                Grits.proofs.LRCertInst Grits.proofs.LRSound Grits.proofs.LRSoundInst Grits.proofs.ParseSound
-               Grits.proofs.ExpandProofs Grits.proofs.IllegalReject.
+               Grits.proofs.ExpandProofs Grits.proofs.IllegalReject Grits.proofs.ActionsTyped.
 Local Open Scope Z_scope.
 
 (* the instrumented scanner produces the tokens of the model's scanner *)
@@ -59,7 +59,19 @@ Theorem C12_outside_alphabet_illegal : forall c,
   In (code c) [64; 35; 36; 126; 33; 63; 34; 94; 96; 0; 127]%nat \/ (128 <= code c)%nat -> illegal_char c = true.
 Proof. exact outside_alphabet_illegal. Qed.
 
+(* the statement list returned by the parse has exactly one entry per reduction by a production that
+   introduces a declaration (2: bare expression as whole program; 4-13: the `statements` rules);
+   run_count is the driver instrumented with that counter *)
+Theorem C12_run_count_is_run : forall fuel stk inp n, fst (run_count fuel stk inp n) = run sval tok_val reduce_action fuel stk inp.
+Proof. exact run_count_fst. Qed.
+
+Theorem C12_statements_are_the_reductions : forall fuel toks l m,
+  run_count fuel [(0, VUnit)] toks 0 = (LRAccept (VStmts l), m) -> length l = m.
+Proof. exact statements_are_the_reductions. Qed.
+
 Print Assumptions C12_scan_items_tokens.
+Print Assumptions C12_run_count_is_run.
+Print Assumptions C12_statements_are_the_reductions.
 Print Assumptions C12_scan_covers.
 Print Assumptions C12_lr_sound.
 Print Assumptions C12_accept_consumes_all.
